@@ -50,9 +50,9 @@ def run(ctx):
     _timeline(ctx, F)
 
 
-def _key(ctx, F):
-    wr = ctx.need('AGREE-C15a', 'io::time_index::append_track')
-    rd = ctx.need('AGREE-C15a', 'io::time_index::read_track')
+def _key(ctx, F, rule='AGREE-C15a'):
+    wr = ctx.need(rule, 'io::time_index::append_track')
+    rd = ctx.need(rule, 'io::time_index::read_track')
     if wr is None or rd is None:
         return
     ctx.touch(wr, len(wr.blocks))
@@ -76,9 +76,9 @@ def _key(ctx, F):
     writes = [c for c in wr.calls() if c.name == 'write_all']
     ctx.evaluations += len(sk) + len(writes)
     if ok and sk and all(lib.call_success_dominates(wr, sk[0], w.bb) for w in writes):
-        ctx.ok('AGREE-C15a', wr, 'entries sorted by (timestamp, frame_id) before anything is written', line=sk[0].line)
+        ctx.ok(rule, wr, 'entries sorted by (timestamp, frame_id) before anything is written', line=sk[0].line)
     else:
-        ctx.bad('AGREE-C15a', wr, 'append_track does not sort by the tuple (timestamp, frame_id) before writing', detail='writer-sort-key')
+        ctx.bad(rule, wr, 'append_track does not sort by the tuple (timestamp, frame_id) before writing', detail='writer-sort-key')
     # reader: comparisons leading to the "not sorted" rejection
     rels = set()
     for c in lib.comparisons(rd):
@@ -91,9 +91,9 @@ def _key(ctx, F):
     ctx.evaluations += len(rels)
     norm = {(f, r) for f, r in rels} | {(f, lib.NEG[r]) for f, r in rels if False}
     if need <= rels:
-        ctx.ok('AGREE-C15a', rd, 'read_track rejects ts < prev.ts and (ts == prev.ts && id < prev.id): the writer\'s order')
+        ctx.ok(rule, rd, 'read_track rejects ts < prev.ts and (ts == prev.ts && id < prev.id): the writer\'s order')
     else:
-        ctx.bad('AGREE-C15a', rd, 'read_track validates %s, the writer orders by (timestamp, frame_id)' % sorted(rels), detail='reader-order-check:' + ','.join('%s%s' % x for x in sorted(rels)))
+        ctx.bad(rule, rd, 'read_track validates %s, the writer orders by (timestamp, frame_id)' % sorted(rels), detail='reader-order-check:' + ','.join('%s%s' % x for x in sorted(rels)))
 
 
 def _is_vec(fn, op):
